@@ -74,7 +74,8 @@ FirstDiff(a, b) == IF a = b THEN 0 ELSE DiffFrom(a, b, 1, IF Len(a) < Len(b) THE
 Findings(c) ==
   LET tset == {c.touched[k] : k \in DOMAIN c.touched} IN
   (IF tset = {} /\ c.l0 > 0
-   THEN Pick({IF d = 0 THEN <<>> ELSE <<<<"unmodified", d>>>> : d \in {FirstDiff(SubSeq(c.orig, c.l0, c.l1), c.out)}})
+   THEN (IF c.l1 > Len(c.orig) \/ c.l1 < c.l0 THEN <<<<"unmodified", 0>>>>       \* the recorded span is not inside the file
+         ELSE Pick({IF d = 0 THEN <<>> ELSE <<<<"unmodified", d>>>> : d \in {FirstDiff(SubSeq(c.orig, c.l0, c.l1), c.out)}}))
    ELSE <<>>)
   \o Pick({IF u = {} THEN <<>> ELSE <<<<"valid-sound", CHOOSE i \in u : \A j \in u : i <= j>>>> : u \in {Unsound(c.onodes, c.nodes, tset)}})
   \o Pick({IF m = 0 THEN <<>> ELSE <<<<"valid-emitted", m>>>> : m \in {NotEmitted(c.orig, c.nodes, c.out)}})
